@@ -85,8 +85,8 @@ def split_processes(obs):
     return parent, children, child_order
 
 
-SUMMARY = re.compile(r'Ran (\d+) tests? with (\d+) failures?, (\d+) errors? and (\d+) skipped')
-TOTAL = re.compile(r'Total: (\d+) tests?, (\d+) failures?, (\d+) errors? and (\d+) skipped')
+SUMMARY = re.compile(r'  Ran (\d+) tests? with (\d+) failures?, (\d+) errors? and (\d+) skipped in ')
+TOTAL = re.compile(r'^Total: (\d+) tests?, (\d+) failures?, (\d+) errors? and (\d+) skipped', re.M)
 RUNNING = re.compile(r'^Running (\S+) tests:', re.M)
 
 
